@@ -97,6 +97,7 @@ type Exec struct {
 	sharedAcc   map[interface{}]*sharedInfo
 	sharedOrder []interface{}
 	encodesUnlocked int
+	encLockGen      int
 	nGoroutines int
 	deadlocked  bool
 	leakCheck   bool
@@ -524,6 +525,7 @@ func (ex *Exec) runPath(fn *ssa.Function, prefix []int) (res *PathResult, pendin
 	ex.sharedFrom = 0
 	ex.sharedOn, ex.sharedAcc, ex.sharedOrder = false, nil, nil
 	ex.encodesUnlocked = 0
+	ex.encLockGen = 0
 	ex.deadlocked, ex.leakCheck = false, false
 	ex.sched = nil
 	for _, k := range ex.pathNatives {
